@@ -138,6 +138,8 @@ type executor struct {
 	paramVals []Value
 	loopFrames map[*loopInfo]*loopFrame
 	idxTerms []*Term
+	readLog  map[string]bool
+	heapLocals map[string]Value
 	idxSeen  map[int]bool
 }
 
@@ -450,6 +452,9 @@ func (ex *executor) assume(st *state, fact *Term) {
 // ---------- heaps in states ----------
 
 func (ex *executor) heapOf(st *state, cls *HeapClass) *Heap {
+	if rl := ex.root().readLog; rl != nil {
+		rl[cls.Name] = true
+	}
 	if h, ok := st.heaps[cls.Name]; ok {
 		return h
 	}
@@ -662,7 +667,7 @@ func (ex *executor) classifyCells() {
 				if _, dup := ex.cellName[name]; dup {
 					k := 2
 					for {
-						nn := fmt.Sprintf("%s#%d", name, k)
+						nn := fmt.Sprintf("%s_%d", name, k)
 						if _, d := ex.cellName[nn]; !d {
 							name = nn
 							break
